@@ -9,13 +9,18 @@ import corpus
 
 META = {
     "level": "proof",
-    "technique": "Rocq proof (induction over operation programs with a capture-reader invariant) + exhaustive/seeded "
-                 "model-vs-implementation correspondence",
+    "technique": "Rocq proof (induction over operation programs with a capture-reader invariant; the trial cascade over that "
+                 "handle) + exhaustive/seeded model-vs-implementation correspondence",
     "claim": "The rewindable input handle is proved transparent for ALL programs of reads/prefix requests/re-borrows, all "
              "short-read schedules and all fault points (unbounded), on a Gallina transliteration of src/input.rs that is "
              "diffed against the real handle on every handle program up to a length bound and on seeded random longer "
-             "ones; equality of detected and explicit runs, totality of detection and slice/reader agreement of the "
-             "detected format are checked on the implementation by the property's oracle over the corpus.",
+             "ones. On the model of detect.rs's cascade over that handle (DetectModel.v, diffed against detect_format): for "
+             "ALL trial programs and verdicts, schedules and faults the parser that runs after detection is handed the same "
+             "stream as when the format is named (C09_detected_input_is_explicit_input, C09_detection_preserves_stream); "
+             "over a source that does not fail within its data, with trials that report an I/O error only after seeing one, "
+             "detection NEVER ends in an error, over a reader and over a slice (C09_detection_never_errs_*). That the real "
+             "third-party trials are honest in that sense, equality of detected and explicit runs and slice/reader agreement "
+             "of the detected format are checked on the implementation by the property's oracle over the corpus.",
     "level_note": "Trusted: Coq kernel; the hand-written model (validated by correspondence, not generated); std::io "
                   "adapters modelled; the four third-party parser trials are observed, not proved. No axioms.",
     "needs_hooks": True,
@@ -187,6 +192,9 @@ def run(outcome, tier, seed):
                     "format was detected and the detected run was compared with the explicit runs")
     if outcome.hooks_available:
         run_handle(outcome, tier, seed)
+        # the trial cascade of DetectModel.v (the subject of the "never errs" and "same input" theorems) against detect_format
+        from props import c10
+        c10.run_order_correspondence(outcome, tier, seed)
         run_detect_oracle(outcome, tier, seed)
     else:
         outcome.notes.append("verif hooks unavailable: hook-level correspondence not run")
